@@ -50,6 +50,8 @@ pub enum TopDec {
     DropConn,
     End,
     Mismatch(String),
+    /// record a marker event (drain start / end, twin marks) and ask again
+    Note(Value),
 }
 
 #[derive(Debug, Clone, Default)]
@@ -789,14 +791,15 @@ fn run_inner(cfg: &Cfg, ctx: &Shared) {
                 ctx.borrow_mut().mismatch = Some("drop without connection".into());
                 return;
             }
-            TopDec::Call(Step::Conn {}) => {
+            TopDec::Note(v) => ctx.borrow_mut().rec(v),
+            TopDec::Call(Step::Conn { healthy }) => {
                 {
                     let mut c = ctx.borrow_mut();
                     c.inbound.clear();
                     c.io = [0; 3];
                     c.op = "conn".into();
                     c.dir.new_transport();
-                    c.rec(json!({"e":"conn"}));
+                    c.rec(json!({"e":"conn","healthy":healthy}));
                 }
                 let io = SimIo { ctx: ctx.clone() };
                 let outcome = drive(ctx, session.connect(io));
@@ -864,6 +867,10 @@ fn conn_loop(ctx: &Shared, conn: &mut Connection<'_, 'static, SimIo>, handles: &
         let step = match dec {
             TopDec::End => return,
             TopDec::DropConn => return,
+            TopDec::Note(v) => {
+                ctx.borrow_mut().rec(v);
+                continue;
+            }
             TopDec::Mismatch(m) => {
                 ctx.borrow_mut().mismatch = Some(m);
                 return;
@@ -889,7 +896,7 @@ fn conn_loop(ctx: &Shared, conn: &mut Connection<'_, 'static, SimIo>, handles: &
             Step::Recv {} => "recv",
             Step::Drive {} => "drive",
             Step::Disconnect { .. } => "disconnect",
-            Step::Conn {} => {
+            Step::Conn { .. } => {
                 // implicit drop of the handle, then the caller sees the Conn step again
                 ctx.borrow_mut().mismatch = Some("conn while a handle is held".into());
                 return;
